@@ -1,5 +1,11 @@
 mod storage;
 
+/// Storage types for single-threaded simulation harnesses
+#[cfg(aquatic_verif)]
+pub mod verif_export {
+    pub use super::storage::*;
+}
+
 use std::cell::RefCell;
 use std::rc::Rc;
 use std::time::Duration;
